@@ -119,8 +119,12 @@ def rd_obl(n, start, tier, timeout=400):
                real=["log_reader.c", "util/buffer.c"], kit=RT_KIT,
                defs={"VP_N": n, "VP_START": start, "VP_SLAB_SIZE": 64, "VP_SCRATCH": 64},
                unwind=n + 3,
-               unwindset={"read_physical_record.0": 3, "ldb_reader_read_record.0": n // 7 + 4,
-                          "memcpy.0": n + 1, "ldb_crc32c_extend.0": n + 2, "vp_cksum_extend.0": n + 2},
+               # bounds = what the input size allows (payload <= n-7, <= n/7 physical records + a dropped
+               # block + EOF per call); with unwind_is_violation a bound that is too small FAILS, never hides
+               unwindset={"read_physical_record.0": 3, "ldb_reader_read_record.0": n // 7 + 3,
+                          "memcpy.0": max(2, n - 5), "ldb_crc32c_extend.0": max(3, n - 4),
+                          "vp_cksum_extend.0": max(3, n - 4),
+                          "vp_ref_next.0": max(2, n - 5), "vp_ref_next.1": max(2, n - 5), "vp_ref_next.2": n // 7 + 5},
                restrict_fp=["report_drop.function_pointer_call.1/vp_corruption"],
                unwind_is_violation=True,
                functions=["ldb_reader_init", "ldb_reader_read_record", "read_physical_record", "report_corruption",
@@ -131,7 +135,7 @@ def rd_obl(n, start, tier, timeout=400):
                bounds="%d arbitrary bytes starting at file offset %s" % (n, where))
 
 
-D_QUICK = [(0, 0), (6, 0), (7, 0), (10, 0), (15, 0), (10, BLK - 3), (12, BLK - 9)]
+D_QUICK = [(0, 0), (6, 0), (7, 0), (10, 0), (14, 0), (10, BLK - 3), (12, BLK - 9)]
 for n, st in D_QUICK:
     OBLIGATIONS.append(rd_obl(n, st, "quick"))
 for n in range(0, 25):
